@@ -81,14 +81,14 @@ let res_str = function
   | RNone -> "none"
   | ROne r -> "one:" ^ run_str r
   | RChunk (b, rs, a0, tk, a1) -> Printf.sprintf "chunk:%s:%s:%s:%s:%s" (n_str b) (runs_str rs) (n_str a0) (n_str tk) (n_str a1)
-  | RLoop rs -> "loop:" ^ runs_str rs
+  | RLoop rs -> "loop:" ^ runs_str (merge_runs rs)
   | RLen o -> "len:" ^ on_str o
   | RMore (HYes n) -> "more:yes:" ^ n_str n
   | RMore HMaybe -> "more:maybe"
   | RMore HNo -> "more:no"
   | RUnit -> "unit"
   | RSeq (rs, tk) -> Printf.sprintf "seq:%s:%s" (runs_str rs) (n_str tk)
-  | RPanic (k, rs) -> Printf.sprintf "panic:%s:%s" (pk_str k) (runs_str rs)
+  | RPanic (k, rs) -> Printf.sprintf "panic:%s:%s" (pk_str k) (runs_str (merge_runs rs))
 let res_parse s =
   match split ':' s with
   | ["none"] -> RNone
